@@ -232,6 +232,35 @@ func TestLevelText(t *testing.T) {
 			}
 		}
 	}
+	// the same round trips under customised level texts (upper/mixed case, non-ASCII) and a
+	// customised LevelFieldMarshalFunc
+	type vals struct{ t, d, i, w, e, f, p string }
+	oldV := vals{zerolog.LevelTraceValue, zerolog.LevelDebugValue, zerolog.LevelInfoValue, zerolog.LevelWarnValue, zerolog.LevelErrorValue, zerolog.LevelFatalValue, zerolog.LevelPanicValue}
+	oldF := zerolog.LevelFieldMarshalFunc
+	defer func() {
+		zerolog.LevelTraceValue, zerolog.LevelDebugValue, zerolog.LevelInfoValue, zerolog.LevelWarnValue, zerolog.LevelErrorValue, zerolog.LevelFatalValue, zerolog.LevelPanicValue = oldV.t, oldV.d, oldV.i, oldV.w, oldV.e, oldV.f, oldV.p
+		zerolog.LevelFieldMarshalFunc = oldF
+	}()
+	customs := []vals{{"TRACE", "DEBUG", "INFO", "WARN", "ERROR", "FATAL", "PANIC"}, {"Trace", "Debug", "Info", "Warning", "Err", "Fatal", "Panic"}, {"spür", "ÄRGER", "Größe", "wärn", "FEHLER", "tödlich", "PÄNIK"}, {"t", "d", "i", "w", "e", "f", "p"}}
+	funcs := map[string]func(zerolog.Level) string{"String": func(l zerolog.Level) string { return l.String() }, "upper": func(l zerolog.Level) string { return strings.ToUpper(l.String()) }, "bracket": func(l zerolog.Level) string { return "[" + l.String() + "]" }}
+	for ci, cv := range customs {
+		zerolog.LevelTraceValue, zerolog.LevelDebugValue, zerolog.LevelInfoValue, zerolog.LevelWarnValue, zerolog.LevelErrorValue, zerolog.LevelFatalValue, zerolog.LevelPanicValue = cv.t, cv.d, cv.i, cv.w, cv.e, cv.f, cv.p
+		for fname, fn := range funcs {
+			zerolog.LevelFieldMarshalFunc = fn
+			for i := -1; i <= 7; i++ {
+				l := zerolog.Level(i)
+				b, _ := l.MarshalText()
+				var u zerolog.Level = 99
+				err := u.UnmarshalText(b)
+				rec.Case([]byte(fmt.Sprint("custom", ci, fname, i)), true, "level-text-custom")
+				if err != nil || u != l {
+					failf(t, tripleFail{Event: i, Via: fmt.Sprintf("UnmarshalText(MarshalText()) with level values #%d and LevelFieldMarshalFunc %s", ci, fname), What: fmt.Sprintf("%q unmarshals to %d, err=%v", b, u, err)})
+				}
+			}
+		}
+	}
+	zerolog.LevelTraceValue, zerolog.LevelDebugValue, zerolog.LevelInfoValue, zerolog.LevelWarnValue, zerolog.LevelErrorValue, zerolog.LevelFatalValue, zerolog.LevelPanicValue = oldV.t, oldV.d, oldV.i, oldV.w, oldV.e, oldV.f, oldV.p
+	zerolog.LevelFieldMarshalFunc = oldF
 	for _, bad := range []string{"128", "-129", "x", "1e2", " 1", "debugg"} {
 		if l, err := zerolog.ParseLevel(bad); err == nil {
 			failf(t, tripleFail{Via: "ParseLevel(invalid)", What: fmt.Sprintf("%q accepted as %d", bad, l)})
